@@ -205,6 +205,29 @@ def field_type_named_swap(rng, ir):
 
 
 @edit
+def field_type_abstract_to_possible_type(rng, ir):
+    """Pet -> Dog (a union member / an implementer): operations that spread on another possible type
+    stop validating, so this is a breaking retyping however covariant it looks."""
+    c = pick_field(rng, ir, lambda t, f: ir.kind(S.unwrap(f.type)) in ("interface", "union")
+                   and ir.possible_types(S.unwrap(f.type)))
+    if not c:
+        return None
+    t, f = c
+    target = rng.choice(ir.possible_types(S.unwrap(f.type)))
+
+    def swap(x):
+        if x[0] == "named":
+            return named(target)
+        return (x[0], swap(x[1]))
+    g = copy.copy(f)
+    g.type = swap(f.type)
+    if rng.random() < 0.3 and g.type[0] != "nonnull":
+        g.type = nn(g.type)
+    replace_field(ir, f, g)
+    return [f.name]
+
+
+@edit
 def add_optional_argument(rng, ir):
     c = pick_field(rng, ir)
     t, f = c
